@@ -500,7 +500,7 @@ func (c c16Case) atThreshold(ids []int) bool {
 }
 
 // c16Check judges the complete history (called after the idle period).
-func c16Check(c c16Case, s *c16State, res *c16Result) {
+func c16Check(c c16Case, s *c16State, res *c16Result, par bool) {
 	I := c.interval()
 	cl := res.classes
 	failf := func(format string, a ...any) {
@@ -628,7 +628,7 @@ func c16Check(c c16Case, s *c16State, res *c16Result) {
 			}
 			msg := fmt.Sprintf("Wait (ev %d, g%d) called at %v returned at %v, but task %d (its Add had returned at %v) %s %v in batch %v%s",
 				w.ev, w.g, w.tcall, w.tret, id, o.tret, state, b.tend, b.ids, c16History(s))
-			if k := c16KnownHandover(c, w, b, added); k != "" {
+			if k := c16KnownHandover(c, par, w, b, added); k != "" {
 				cl["known-handover"] = true
 				if res.fail == "" {
 					res.fail, res.known = msg, k
@@ -710,12 +710,19 @@ func c16Check(c c16Case, s *c16State, res *c16Result) {
 // WaitGroup, and it is counted in neither. A batch that was already being
 // executed when Wait returned, a batch below the threshold and a batch executed
 // by a Flush/Wait caller are NOT matched.
-func c16KnownHandover(c c16Case, w *c16Op, b *c16Batch, added map[int]*c16Op) string {
+func c16KnownHandover(c c16Case, par bool, w *c16Op, b *c16Batch, added map[int]*c16Op) string {
 	if b.harness || len(b.ids) == 0 || !c.atThreshold(b.ids) {
 		return ""
 	}
 	last := added[b.ids[len(b.ids)-1]]
-	if last.call < w.ret && b.start > w.ret {
+	if last.call >= w.ret {
+		return ""
+	}
+	// exec-parallel: the flusher's enterExecution waits on the wgBarrier mutex until Wait's
+	// waitGroup.Wait() is over and then starts the callback at once, possibly before the
+	// goroutine that called Wait has been scheduled again and has stamped the return: the
+	// real-clock rule can only require that the callback started after Wait was CALLED.
+	if b.start > w.ret || (par && b.start > w.call) {
 		return "handover"
 	}
 	return ""
@@ -797,7 +804,7 @@ func c16Interp(t *testing.T, c c16Case) (v kit.Verdict) {
 			}
 			c16Settle(c, s)
 			s.mu.Lock()
-			c16Check(c, s, res)
+			c16Check(c, s, res, false)
 			if os.Getenv("VERIF_C16_TRACE") != "" {
 				fmt.Fprintf(os.Stderr, "C16 trace %+v%s\n", c, c16History(s))
 			}
@@ -878,7 +885,7 @@ func c16InterpPar(t *testing.T, c c16Case) (v kit.Verdict) {
 	s.mu.Lock()
 	s.dead = true
 	if res.fail == "" {
-		c16Check(c, s, res)
+		c16Check(c, s, res, true)
 	}
 	s.mu.Unlock()
 	return c16Verdict(c, s, res)
